@@ -179,7 +179,7 @@ def hs_case(draw, tier="quick"):
     d = draw(st.sampled_from([2, 3]))
     pars = [list(p) for p in draw(st.permutations(PARS))[:3]]
     return {"d": d, "A": draw(C.hpoint(d, 6)), "B": draw(C.hpoint(d, 6)), "pars": pars, "coll": draw(st.sampled_from([0, 0, 2])),
-            "scales": [draw(C.scale()) for _ in range(3)]}
+            "scales": [draw(C.scale()) for _ in range(3)], "bigint": draw(st.sampled_from([None, None, 1000, 3000, 700]))}
 
 
 def run_hs(c):
@@ -202,9 +202,17 @@ def run_hs(c):
     pts = [[s * a + t * b for a, b in zip(A, B)] for s, t in (pa, pb, pc, pd)]
     sc = [C.scale_value(s) for s in c["scales"]]
     P = [Point(f2(p) * s) for p, s in zip(pts[:3], sc)]
+    big = c.get("bigint")
+    if big:
+        # integer-typed points with coordinates of a few thousand (exact in every integer step of the construction; the same
+        # values as floats are outside the range of the library's absolute collinearity tolerance)
+        ints = [np.array([int(x) for x in p], dtype=object) if all(Fraction(x).denominator == 1 for x in p) else None for p in pts[:3]]
+        if any(v is None for v in ints) or not isinstance(big, int) or not 1 <= big <= 5000:
+            raise Skip("not integral")
+        P = [Point((v * big).astype(np.int64)) for v in ints]
     if c["coll"]:
-        P = [PointCollection(np.stack([p.array, p.array * 3.0])) for p in P]
-    site = f"harmonic_set:d{d}" + (":coll" if c["coll"] else "")
+        P = [PointCollection(np.stack([p.array, p.array * 3])) for p in P]
+    site = f"harmonic_set:d{d}" + (":coll" if c["coll"] else "") + (":integer-coordinates-in-the-thousands" if big else "")
     r, f = call(site, lambda: harmonic_set(*P))
     if f:
         return [f]
@@ -294,7 +302,7 @@ LAWS = [
         mandatory=("special-vertex", "endpoint-parameter", "transformed", "lines2", "planes3", "points1", "complex-parameters", "collection>=64-several-axes")),
     Law("crossratio_clustered_1d", lambda tier: cluster_case(tier), run_cluster, lambda c: abs(c["N"]) >= 1000, lambda c: [f"N={c['N']}"], {"quick": 400, "thorough": 5000},
         "four integer points N+o_i of P^1 (|N| up to 1e6, exact determinants): value depends on the offsets only", shard=400),
-    Law("harmonic_set", lambda tier: hs_case(tier), run_hs, lambda c: True, lambda c: [f"d{c['d']}", "coll" if c["coll"] else "single"],
+    Law("harmonic_set", lambda tier: hs_case(tier), run_hs, lambda c: True, lambda c: [f"d{c['d']}", "coll" if c["coll"] else "single"] + (["big-integers"] if c.get("bigint") else []),
         {"quick": 1000, "thorough": 20000}, "harmonic_set(a,b,c) equals the exactly computed harmonic conjugate", shard=400),
     Law("negative", lambda tier: neg_case(tier), run_neg, lambda c: True, lambda c: [c["form"], f"d{c['d']}"] + (["mixed-collection"] if c.get("mixed") else []), {"quick": 400, "thorough": 6000},
         "non-collinear points raise NotCollinear, non-concurrent lines raise NotConcurrent", shard=400),
